@@ -155,6 +155,10 @@ var checks = map[string]checkCfg{
 		Rule:        "each case draws a directory of 0-80 entries with name lengths over 1..255 (many at 255), READDIR or READDIRPLUS, and count / (dircount, maxcount) from {0,1,100,103,104,127,128,129,131,132,200,300,332,400,512,1024,4096,8192,65536,2^32-1}; the client follows cookies until eof, TOOSMALL or n+3 calls; non-trivial = the listing needed >=2 pages or the limit was below one entry (TOOSMALL); distinct = FNV-64 of the case JSON",
 		Assumptions: append([]string{"the size limit is compared with the encoded resok without the status word (the more lenient reading of RFC 1813); dircount is not judged", "when nothing remains to be listed and even the resok header exceeds count, OK and TOOSMALL are both accepted"}, baseAssumptions...),
 		Phases:      []phase{rp("rapid", "^TestC26$", 4, 500, 16, 5000)}},
+	"C27": {Level: "exploration", Technique: "rapid portmap/rpcbind call sequences from loopback and non-loopback addresses vs a registry model + strict reply decoding",
+		Rule:        "each case is a sequence of 2-25 calls through Portmapper.handleCall with the remote address drawn from {127.0.0.1, 127.9.9.9, ::1, ::ffff:127.0.0.1, 10.0.0.5, 192.168.1.7, 2001:db8::1, fe80::1%eth0, ::ffff:10.0.0.5, 128.0.0.1}, protocol version 1-5, procedure NULL/SET/UNSET/GETPORT|GETADDR/DUMP/CALLIT/9, (program, version, protocol) from a pool of 12, IPv4 and IPv6 universal addresses, malformed addresses and truncated arguments; non-trivial = a SET/UNSET from a non-loopback address, or a DUMP after >=2 changes; distinct = FNV-64 of the case JSON",
+		Assumptions: append([]string{"SET/UNSET calls that the server accepts although their arguments are malformed are not judged (the model is resynchronised)"}, baseAssumptions...),
+		Phases:      []phase{rp("rapid", "^TestC27$", 4, 1500, 16, 20000)}},
 	"C02": {Level: "exploration", Technique: "rapid histories vs POSIX tree model + cached-vs-uncached differential",
 		Rule:        "cases are rapid-generated sequential histories of LOOKUP/CREATE/MKDIR/SYMLINK/REMOVE/RMDIR/RENAME/READDIR(PLUS)/GETATTR/READLINK over names {a,b,c} to depth 3, addressed through every handle ever issued (stale ones included); each history runs under the all-off baseline and k cached configurations (quick 3, thorough 6 of 15); non-trivial = a read-type request on a name or directory affected by an earlier successful mutation, executed under a configuration with at least one cache on; distinct = FNV-64 of the case JSON",
 		Assumptions: append([]string{"documented latitude L1-L7 of DESIGN.md §5 C02 (REMOVE of empty dir, UNCHECKED/EXCLUSIVE on existing objects, error code identity not compared against the model, path-bound handles)"}, baseAssumptions...),
